@@ -36,12 +36,13 @@ theorem bot_inv_tie (cfg : Conf) (hfix : cfg.fixed = true) (size : Nat) (secs : 
 /-- **The loop ends exactly when the server ends the game.**  Under well-formed traffic (`TraceOK`: the server
 announces only parsed moves that are legal in its own history, sends `Undo` only when there is something to
 undo, `Over` with a result, `Time` with two fields, `Tell` with a `<name>`; checking an AI answer does not panic)
-the loop has returned iff some delivered event was `Game#N Over …`, `Game#N Abandoned. …` or the close of the
+on a board of size 3..8 the loop has returned iff some delivered event was `Game#N Over …`, `Game#N Abandoned. …` or the close of the
 connection. -/
 theorem bot_ends_iff (cfg : Conf) (hfix : cfg.fixed = true) (size : Nat) (secs : Int) (evs : List Ev)
-    (hstart : (start cfg size secs).status = .running)
+    (hsize : 3 ≤ size ∧ size ≤ 8)
     (hok : TraceOK cfg (start cfg size secs) evs) :
     (run cfg (start cfg size secs) evs).status = .ended ↔ ∃ e ∈ evs, isEnd cfg e := by
+  have hstart := start_running cfg size secs hsize.1 hsize.2
   obtain ⟨h1, h2⟩ := run_status hfix (sinv_start cfg size secs) hstart evs hok
   constructor
   · intro he
@@ -53,14 +54,28 @@ theorem bot_ends_iff (cfg : Conf) (hfix : cfg.fixed = true) (size : Nat) (secs :
 
 /-- under the same hypotheses the protocol goroutine never panics -/
 theorem bot_no_panic (cfg : Conf) (hfix : cfg.fixed = true) (size : Nat) (secs : Int) (evs : List Ev)
-    (hstart : (start cfg size secs).status = .running)
+    (hsize : 3 ≤ size ∧ size ≤ 8)
     (hok : TraceOK cfg (start cfg size secs) evs) :
     ¬ (run cfg (start cfg size secs) evs).crashed := by
+  have hstart := start_running cfg size secs hsize.1 hsize.2
   obtain ⟨h1, h2⟩ := run_status hfix (sinv_start cfg size secs) hstart evs hok
   rintro ⟨e, he⟩
   by_cases hend : ∃ e ∈ evs, isEnd cfg e
   · rw [h1 hend] at he; cases he
   · rw [h2 hend] at he; cases he
+
+/-- **An observer never transmits a move** (`ObserveGame`: `g.Color = NoColor`), in any interleaving. -/
+theorem observer_silent (cfg : Conf) (hfix : cfg.fixed = true) (hobs : cfg.color = .none) (size : Nat) (secs : Int)
+    (evs : List Ev) : sentMoves (run cfg (start cfg size secs) evs) = [] := by
+  have h := bot_inv cfg hfix size secs evs
+  rw [h.logged]
+  cases hl : (run cfg (start cfg size secs) evs).log with
+  | nil => rfl
+  | cons r rs =>
+    have ht := (h.sends r (by rw [hl]; exact List.mem_cons_self)).onTurn
+    rw [hobs] at ht
+    unfold Pos.toMove at ht
+    split at ht <;> cases ht
 
 /-- **`moveLock` serialises the thinkers**: in every reachable state (either variant of the loop) at most one thinker
 goroutine is inside `Bot.GetMove`, however many invocations have come and gone with their thinkers still waiting. -/
@@ -136,23 +151,33 @@ example :
     s.log.length = 3 ∧ s.status = .ended ∧ s.result = "R-0" ∧ s.mine = 590000000000 := by
   decide +kernel
 
+/-- an observer's run: it follows two moves and an undo, transmits nothing, and ends with the game -/
+example :
+    let cfg : Conf := { basis := zeroBasis, color := .none, gameStr := "Game#7", fixed := true }
+    let s := run cfg (start cfg 5 600)
+      [.grant 0, .deliver ["Game#7", "P", "A1"] (some (flat 0 0)) false, .timerFires, .aiReturns 0 (flat 3 3), .grant 1,
+       .deliver ["Game#7", "P", "E1"] (some (flat 4 0)) false, .deliver ["Game#7", "Undo"] none false,
+       .aiReturns 1 (flat 3 3), .deliver ["Game#7", "Abandoned.", "x", "quit"] none false]
+    s.sent = [] ∧ s.moves = [flat 0 0] ∧ s.status = .ended ∧ s.old.length = 2 := by
+  decide +kernel
+
 /-- in `playTrace` a thinker does hold the lock at times (after the 13th event thinker 4 is inside `GetMove`) -/
 example : holders (run (white true) (start (white true) 5 600) (playTrace.take 13)) = 1 := by decide +kernel
 
 /-- the hypotheses of `bot_ends_iff`/`bot_no_panic` hold of this run (sixteen events: moves, clock, undo traffic,
 chat, five thinkers, `Over`), and so do their conclusions -/
 example :
-    (start (white true) 5 600).status = .running ∧ TraceOK (white true) (start (white true) 5 600) playTrace ∧
+    TraceOK (white true) (start (white true) 5 600) playTrace ∧
     (∃ e ∈ playTrace, isEnd (white true) e) := by
   decide +kernel
 
 example : (run (white true) (start (white true) 5 600) playTrace).status = .ended :=
-  (bot_ends_iff (white true) rfl 5 600 playTrace (by decide +kernel) (by decide +kernel)).mpr (by decide +kernel)
+  (bot_ends_iff (white true) rfl 5 600 playTrace (by decide) (by decide +kernel)).mpr (by decide +kernel)
 
 /-- … and a run the server has not ended keeps going: the same schedule without its last line -/
 example : (run (white true) (start (white true) 5 600) playTrace.dropLast).status ≠ .ended := by
   intro h
-  have := (bot_ends_iff (white true) rfl 5 600 playTrace.dropLast (by decide +kernel) (by decide +kernel)).mp h
+  have := (bot_ends_iff (white true) rfl 5 600 playTrace.dropLast (by decide) (by decide +kernel)).mp h
   revert this
   decide +kernel
 
